@@ -93,3 +93,17 @@ PROPS["C11"] = {
     "level_text": "seeded search over sign-out histories judged against a browser jar and the store contents, with fault injection on the store delete",
     "assumptions": COMMON_ASSUMPTIONS + ["cookie store: replay of an old unexpired cookie after sign-out is not required to fail (the statement limits that to server-side stores)"],
 }
+
+PROPS["C09"] = {
+    "level": "exploration",
+    "quick_runs": 1600, "quick_budget_s": 150, "thorough_budget_s": 600,
+    "rule": "one run = one world (store, provider personality, cookie-expire E, cookie-refresh R, rotating refresh tokens, failing refresh, issuing replica "
+            "whose clock is ahead by 0 / 4m58s / 5m02s / 6m / 1h, two replicas) + a seeded subset of a clock grid around R, E, E+R, 2E, the five-minute future bound "
+            "and random points; at every point the browser's own request (which may refresh and reset the age) and a replay of EVERY credential value ever issued "
+            "(attacker client ignoring Max-Age); oracles: stamped age >= E+1s => not served, issue time >= 5m+1s in the future => not served, current credential "
+            "younger than E-2s => served (fault-free), Max-Age == E, Redis TTL == E after each write and entry gone after E; "
+            "non-trivial = a refresh re-issued the credential during the run; distinct = distinct (grid points, world) + event hash",
+    "level_text": "seeded search over clock positions, refresh histories, issuer clock skew and credential replay against both stores",
+    "assumptions": COMMON_ASSUMPTIONS + ["the open second at each lifetime boundary is judged 'either' (the signed timestamp has one-second granularity)",
+                                          "issuer skew is produced with the repository's own mockable pkg/clock while the issuing request runs alone"],
+}
